@@ -1,5 +1,5 @@
 (* C18 — property theorems.  Statements, `exact` proofs, non-vacuity examples and Print Assumptions only.
-   setter_table / get_setter / config_num / config_opaque / config_poling / steps2d_value / sweep_* are GENERATED from
+   setter_table / get_setter / config_num / config_opaque / config_poling / spdc_iter_* are GENERATED from
    src/spdc/spdc_iter.rs, src/beam/mod.rs, src/spdc/spdc_obj.rs, src/spdc/config/mod.rs, src/utils.rs on every run (Gen/Sweep.v);
    spec_table / si_of / config_key are the hand-pinned table of the 25 documented paths (Spec/SweepPaths.v); ideal_set is the
    hand-written "write this slot, touch nothing else" (Model/Sweep.v).  snell / csign are the two external kernels (Snell search,
@@ -8,7 +8,9 @@
    7f110fb); the theorems are stated at full strength for the repaired code. *)
 From Coq Require Import Reals List String.
 From SpdVerif Require Import Base.Rx Base.PolingBase Gen.Poling Gen.Sweep Spec.SweepPaths Model.Sweep
-  Proofs.C18_table Proofs.C18_frame Proofs.C18_sweep Proofs.C18_all.
+  Proofs.C18_table Proofs.C18_frame Proofs.C18_sweep Proofs.C18_all Proofs.C18_external Proofs.C18_normspectrum.
+From SpdVerif Require Base.CfgNumOps Model.NumInst Model.ConfigTypes Model.Config Model.NormSpectrum.
+From SpdVerif Require Model.Optics Model.Fresnel Gen.Beam Proofs.C13_snell.
 Import ListNotations.
 Local Open Scope R_scope.
 
@@ -43,6 +45,28 @@ Theorem C18_value : forall snell csign p sl u, In (p, (sl, u)) spec_table -> sl 
     assoc (config_key sl) (config_num (f s v)) = Some (expected_value snell sl u v s).
 Proof. exact value_all. Qed.
 
+(* external angle, against the Snell contract of C13 (C13_snell_forward / C13_snell_roundtrip_partial): the generated setter with
+   its Snell oracle instantiated by C13's generated calc_internal_theta_from_external (nm = the Nelder-Mead kernel, index = the
+   crystal's index along a direction for this beam's wavelength and polarization).  IF the optimiser returns th in [0, pi/2] with
+   residual <= r for e = |v| deg (e <= M < pi/2), THEN the stored internal angle is th, it satisfies Snell's law within r,
+   |sin e - n(th) sin th| <= r, the view shows th in degrees (4 decimals), the azimuth is untouched, and the external angle read back
+   through Snell is within r / cos M of e.  PARTIAL in the same sense as C13: convergence of the simplex is checked per input. *)
+Theorem C18_external_angle_partial : forall nm index pol csign p b, In (p, (SBeamThetaExternal b, UDeg)) spec_table ->
+  exists f, get_setter (snell_of nm index pol) csign p = Some f /\ forall s v r M,
+    let bm := get_beam b s in
+    let e := Rabs (v * (PI / 180)) in
+    let n_along := index (s_crystal_setup s) bm in
+    let th := Proofs.C13_snell.theta_star nm n_along (to13 pol bm) e in
+    0 <= b_phi bm < 2 * PI -> - PI < b_theta bm <= PI ->
+    e <= M -> M < PI / 2 -> 0 <= th <= PI / 2 ->
+    Gen.Beam.snell_cost_gen n_along (to13 pol bm) e th <= r ->
+    let bm' := get_beam b (f s v) in
+    b_theta bm' = th /\ b_phi bm' = b_phi bm /\
+    Rabs (sin e - n_along (Model.Optics.normalize (Model.Fresnel.polar_dir (b_phi bm') (b_theta bm'))) * sin (b_theta bm')) <= r /\
+    assoc (config_key (SBeamThetaExternal b)) (config_num (f s v)) = Some (round4 (b_theta bm' / (PI / 180))) /\
+    (sin e + r <= sin M -> Rabs (Gen.Beam.theta_external_gen n_along (to13 pol bm') - e) <= r / cos M).
+Proof. exact external_contract. Qed.
+
 (* THz = 1e12 cycles per second: the stored angular frequency is 2 pi v 1e12 rad/s *)
 Theorem C18_frequency_thz : forall snell csign p b, In (p, (SBeamFrequency b, UThz)) spec_table ->
   exists f, get_setter snell csign p = Some f /\ forall s v, b_frequency (get_beam b (f s v)) = 2 * PI * (v * 1e12).
@@ -61,16 +85,26 @@ Theorem C18_poling_period : forall snell csign,
        exists m, s_pp (f s v) = On m (csign (s_signal s) (s_pump s) (s_crystal_setup s)) ApOff /\ 0 < m /\ m = Rabs v * 1e-6).
 Proof. exact poling_all. Qed.
 
-(* sweep: nx * ny setups; linear index j * nx + i is (value i of the first parameter, value j of the second): first parameter fastest *)
+(* SPDCIter::try_new (generated): accepted iff both paths are documented; the first path's setter is the first component *)
+Theorem C18_try_new : forall snell csign spdc0 p1 p2,
+  spdc_iter_try_new snell csign spdc0 p1 p2 =
+  match get_setter snell csign p1, get_setter snell csign p2 with
+  | Some s1, Some s2 => Some (spdc0, (s1, s2))
+  | _, _ => None
+  end.
+Proof. exact try_new_spec. Qed.
+
+(* sweep (generated SPDCIter::into_iter over the generated Iterator2D): nx * ny setups; setup j * nx + i is the base with the FIRST
+   setter applied first at value i of the first axis, then the second setter at value j of the second axis (first parameter fastest) *)
 Theorem C18_order : forall base setter1 setter2 x0 x1 nx y0 y1 ny,
-  List.length (sweep_setups base setter1 setter2 (sweep_items x0 x1 nx y0 y1 ny)) = (nx * ny)%nat /\
+  List.length (spdc_iter_into_iter base setter1 setter2 x0 x1 nx y0 y1 ny) = (nx * ny)%nat /\
   (forall i j d, (i < nx)%nat -> (j < ny)%nat ->
-     nth (j * nx + i) (sweep_setups base setter1 setter2 (sweep_items x0 x1 nx y0 y1 ny)) d =
+     nth (j * nx + i) (spdc_iter_into_iter base setter1 setter2 x0 x1 nx y0 y1 ny) d =
      setter2 (setter1 base (axis_value x0 x1 nx i)) (axis_value y0 y1 ny j)) /\
   (forall k, (k < nx * ny)%nat -> exists i j, (i < nx)%nat /\ (j < ny)%nat /\ k = (j * nx + i)%nat).
 Proof.
   exact (fun base s1 s2 x0 x1 nx y0 y1 ny =>
-    conj (eq_trans (setups_length base s1 s2 _) (items_length x0 x1 nx y0 y1 ny))
+    conj (setups_length base s1 s2 x0 x1 nx y0 y1 ny)
       (conj (fun i j d Hi Hj => setups_nth base s1 s2 x0 x1 nx y0 y1 ny i j d Hi Hj) (index_decompose nx ny))).
 Qed.
 
@@ -80,11 +114,56 @@ Theorem C18_grid : forall a b n,
   (forall i, axis_value a b 1 i = a).
 Proof. exact (fun a b n => conj (axis_first a b n) (conj (axis_last a b n) (conj (fun i H => axis_step a b n i H) (axis_single a b)))). Qed.
 
-(* swept spectrum values = the kernel applied to the individually constructed setups, in order *)
-Theorem C18_values : forall (A : Type) (jsi : spdc -> A) setups,
-  List.length (sweep_values jsi setups) = List.length setups /\
-  forall k d d', (k < List.length setups)%nat -> nth k (sweep_values jsi setups) d' = jsi (nth k setups d).
-Proof. exact (fun A jsi setups => conj (values_length jsi setups) (fun k d d' H => values_nth jsi setups k d d' H)). Qed.
+(* swept spectrum values (generated SPDCIter::jsi_values; jsa2 = |jsa_raw|^2 and nrm = jsi_normalization are the spectrum kernels):
+   nx * ny values; value j * nx + i is the centre value of the individually constructed setup *)
+Theorem C18_values : forall base setter1 setter2 jsa2 nrm x0 x1 nx y0 y1 ny,
+  List.length (spdc_iter_jsi_values jsa2 nrm base setter1 setter2 x0 x1 nx y0 y1 ny) = (nx * ny)%nat /\
+  forall i j d, (i < nx)%nat -> (j < ny)%nat ->
+    nth (j * nx + i) (spdc_iter_jsi_values jsa2 nrm base setter1 setter2 x0 x1 nx y0 y1 ny) d =
+    centre_value jsa2 nrm (setter2 (setter1 base (axis_value x0 x1 nx i)) (axis_value y0 y1 ny j)).
+Proof.
+  exact (fun base s1 s2 jsa2 nrm x0 x1 nx y0 y1 ny =>
+    conj (values_length base s1 s2 jsa2 nrm x0 x1 nx y0 y1 ny)
+         (fun i j d Hi Hj => values_nth base s1 s2 jsa2 nrm x0 x1 nx y0 y1 ny i j d Hi Hj)).
+Qed.
+
+(* normalised sweep (generated SPDCIter::jsi_values_normalized; opt_of = SPDC::try_as_optimum as an oracle): it panics (None) iff the
+   base cannot be optimised; otherwise every value is the raw swept value divided by the reference at the optimised BASE's centre *)
+Theorem C18_values_normalized : forall base setter1 setter2 jsa2 nrm opt_of x0 x1 nx y0 y1 ny,
+  (opt_of base = None ->
+     spdc_iter_jsi_values_normalized jsa2 nrm opt_of base setter1 setter2 x0 x1 nx y0 y1 ny = None) /\
+  (forall opt, opt_of base = Some opt -> reference jsa2 nrm opt <> 0 ->
+     spdc_iter_jsi_values_normalized jsa2 nrm opt_of base setter1 setter2 x0 x1 nx y0 y1 ny =
+     Some (map (fun v => v / reference jsa2 nrm opt) (spdc_iter_jsi_values jsa2 nrm base setter1 setter2 x0 x1 nx y0 y1 ny))).
+Proof.
+  exact (fun base s1 s2 jsa2 nrm opt_of x0 x1 nx y0 y1 ny =>
+    conj (normalized_none base s1 s2 jsa2 nrm opt_of x0 x1 nx y0 y1 ny)
+         (fun opt H Hr => normalized_some base s1 s2 jsa2 nrm opt_of x0 x1 nx y0 y1 ny opt H Hr)).
+Qed.
+
+(* the generated sweep spectra ARE C20's modelled ones (Model/NormSpectrum.v, where try_as_optimum is the modelled optimisation):
+   for every translation tr of setups between the two record models compatible with the kernels (centre frequencies, |jsa_raw|^2,
+   jsi_normalization) and every base whose optimum the oracle and the model agree on *)
+Theorem C18_values_are_C20_model : forall K minpos op oi jsa_raw norm_jsi freq jsa2 nrm opt_of tr,
+  (forall s, Model.NormSpectrum.center freq (tr s) = (b_frequency (s_signal s), b_frequency (s_idler s))) ->
+  (forall s ws wi, (Coquelicot.Complex.Cmod (jsa_raw (tr s) ws wi)) ^ 2 = jsa2 ws wi s) ->
+  (forall s ws wi, norm_jsi (tr s) ws wi = nrm ws wi s) ->
+  forall base setter1 setter2 x0 x1 nx y0 y1 ny,
+  Model.NormSpectrum.jsi_values jsa_raw norm_jsi freq (map tr (spdc_iter_into_iter base setter1 setter2 x0 x1 nx y0 y1 ny)) =
+    spdc_iter_jsi_values jsa2 nrm base setter1 setter2 x0 x1 nx y0 y1 ny /\
+  (forall opt nf, opt_of base = Some opt ->
+     Model.Config.try_as_optimum Model.NumInst.R_ops K minpos op oi (tr base) = Model.ConfigTypes.Ok (tr opt, nf) ->
+     Model.NormSpectrum.jsi_values_normalized K minpos op oi jsa_raw norm_jsi freq (tr base)
+       (map tr (spdc_iter_into_iter base setter1 setter2 x0 x1 nx y0 y1 ny)) =
+     match spdc_iter_jsi_values_normalized jsa2 nrm opt_of base setter1 setter2 x0 x1 nx y0 y1 ny with
+     | Some l => Model.ConfigTypes.Ok l
+     | None => Model.ConfigTypes.Panic Model.ConfigTypes.SiteOptimumUnwrap
+     end).
+Proof.
+  exact (fun K minpos op oi jsa_raw norm_jsi freq jsa2 nrm opt_of tr Hc Hj Hn base s1 s2 x0 x1 nx y0 y1 ny =>
+    conj (raw_values_agree jsa_raw norm_jsi freq jsa2 nrm tr Hc Hj Hn base s1 s2 x0 x1 nx y0 y1 ny)
+         (fun opt nf Hg H20 => normalized_agree K minpos op oi jsa_raw norm_jsi freq jsa2 nrm opt_of tr Hc Hj Hn base s1 s2 x0 x1 nx y0 y1 ny opt nf Hg H20)).
+Qed.
 
 (* ---- non-vacuity ---- *)
 Example C18_nonvacuous_entry : In ("signal.wavelength_nm"%string, (SBeamWavelength BSignal, UNm)) spec_table /\
@@ -96,6 +175,10 @@ Example C18_nonvacuous_guards : forall snell s,
   value_guard snell (SBeamWavelength BPump) UNm 775 s /\ value_guard snell (SBeamFrequency BSignal) UThz 200 s /\ slot_guard SCrystalTheta s.
 Proof. intros. cbn. repeat split; Lra.lra. Qed.
 
+Example C18_nonvacuous_external : In ("signal.theta_external_deg"%string, (SBeamThetaExternal BSignal, UDeg)) spec_table /\
+  Rabs (2 * (PI / 180)) <= 10 * (PI / 180) /\ 10 * (PI / 180) < PI / 2.
+Proof. pose proof PI_RGT_0. split; [cbn; tauto|]. split; [rewrite Rabs_right|]; Lra.lra. Qed.
+
 Example C18_nonvacuous_beam : beam_ok (mk_beam (mk_beam_waist 1e-4 1e-4) 1.2e15 0%nat 0 0).
 Proof. unfold beam_ok. cbn. pose proof PI_RGT_0. Lra.lra. Qed.
 
@@ -105,7 +188,11 @@ Print Assumptions C18_setters_match.
 Print Assumptions C18_frame.
 Print Assumptions C18_value.
 Print Assumptions C18_poling_period.
+Print Assumptions C18_external_angle_partial.
 Print Assumptions C18_frequency_thz.
+Print Assumptions C18_try_new.
 Print Assumptions C18_order.
 Print Assumptions C18_grid.
 Print Assumptions C18_values.
+Print Assumptions C18_values_normalized.
+Print Assumptions C18_values_are_C20_model.
